@@ -30,7 +30,7 @@ RowsOK(got, exp) ==           \* got : Seq([k, cols]), exp : Seq([k, cells]) as 
                          [n \in 1..Len(got[i].cols[j].cells) |->
                             [f |-> got[i].cols[j].f, q |-> got[i].cols[j].q, ts |-> got[i].cols[j].cells[n].ts,
                              v |-> got[i].cols[j].cells[n].v, lab |-> got[i].cols[j].cells[n].lab]]])
-          IN SameUpToTies(flat, exp[i].cells)
+          IN SameUpToTies(FamSorted(flat), FamSorted(exp[i].cells))
        \* no empty column is ever presented
        /\ \A j \in 1..Len(got[i].cols) : Len(got[i].cols[j].cells) > 0
 
